@@ -212,16 +212,21 @@ class MonitoredList(MonitoredContainer, list):
         super().append(item)
 
     def __setitem__(self, idx, value):
+        # store first: the positions refer to the list as it is now, and recording an item can append inferred items to
+        # this very list (e.g., a transitive property); an assignment that the list rejects records nothing.
         if isinstance(idx, slice):
             # a slice takes any iterable of items, copy it such that an iterator is not consumed before it is stored.
-            value = [self._on_add(item) for item in list(value)]
+            value = list(value)
+            super().__setitem__(idx, value)
+            for item in value:
+                self._on_add(item)
         else:
-            value = self._on_add(value)
-        super().__setitem__(idx, value)
+            super().__setitem__(idx, value)
+            self._on_add(value)
 
     def insert(self, idx, item):
-        item = self._on_add(item)
         super().insert(idx, item)
+        self._on_add(item)
 
     def _remove_item(self, item):
         self.remove(item)
